@@ -1,5 +1,7 @@
 pub mod bvals;
 pub mod c03;
+pub mod c05;
+pub mod c08;
 pub mod c10;
 pub mod c11;
 pub mod c15;
@@ -20,6 +22,8 @@ pub fn dispatch(prop: &str, tier: Tier, replay: Option<String>) -> i32 {
             }
         },
         "C03" => c03::run(tier, replay),
+        "C05" => c05::run(tier, replay),
+        "C08" => c08::run(tier, replay),
         "C10" => c10::run(tier, replay),
         "C11" => c11::run(tier, replay),
         "C15" => c15::run(tier, replay),
